@@ -334,6 +334,11 @@ class ConstrainedFitness(Fitness):
     def __ne__(self, other):
         return not self.__eq__(other)
 
+    def __hash__(self):
+        # Defining __eq__ removes the inherited __hash__; fitnesses are used as
+        # dictionary keys (e.g. by sortNondominated).
+        return hash(self.wvalues)
+
     def dominates(self, other, obj=slice(None)):
         self_violates_constraints = _violates_constraint(self)
         other_violates_constraints = _violates_constraint(other)
